@@ -5,7 +5,10 @@ from __future__ import annotations
 
 import copy
 
+import time
+
 MAX_EVALS = 250
+MAX_SECONDS = 150
 
 
 def minimize(prop, trace, sig):
@@ -15,8 +18,10 @@ def minimize(prop, trace, sig):
     evals = [0]
     best = {"trace": copy.deepcopy(trace), "violation": None}
 
+    t_end = time.time() + MAX_SECONDS
+
     def fails(tr):
-        if evals[0] >= MAX_EVALS:
+        if evals[0] >= MAX_EVALS or time.time() > t_end:
             return False
         evals[0] += 1
         try:
